@@ -69,7 +69,8 @@ pub fn run_insert_only(prop: &'static str, checks: Checks, tier: Tier) -> i32 {
     };
     // pairs level 9 = the host-focus universe (all insertion orders of its small subsets)
     let mut plans = plans;
-    plans.push((9, tier.pick(2, 4), tier.pick(4, 5), 1));
+    // (tracing costs ~30x a match: one level less for C17)
+    plans.push((9, tier.pick(2, 4), if checks.c17 { tier.pick(3, 4) } else { tier.pick(4, 5) }, 1));
     for (pairs, ncfg, depth, max_dev) in plans {
         let desc = if pairs == 9 {
             json!({"kind": "host-focus", "pairs": 0, "max_dev": max_dev, "cfgs": ncfg})
